@@ -150,8 +150,11 @@ type refReplay struct {
 
 // replayRef feeds the durable entries (LoadAllEntries order) to a fresh real state machine that starts at
 // committed+1 with the Application incarnation inc; entries below the machine's height are not inputs any more.
-func replayRef(cfg *config, committed types.Height, inc int, entries []entry, dump bool) refReplay {
+func replayRef(cfg *config, committed types.Height, inc int, entries []entry, dump bool, known []V) refReplay {
 	a := &app{Variant: cfg.App, Inc: inc}
+	for _, v := range known {
+		a.learn(v)
+	}
 	m := tendermint.New[V, H, A](log.NewNopZapLogger(), addrS, a, validators{cfg.Role}, committed+1)
 	var rr refReplay
 	for _, e := range entries {
@@ -189,6 +192,7 @@ type crashRecord struct {
 	committed types.Height
 	pre       []bcast // everything the killed incarnation had broadcast
 	valueAt   []types.Height
+	known     []V // values the killed Application incarnation knew (appAmnesic)
 	net       netState
 	inflight  *input
 	trace     []effect
@@ -311,7 +315,7 @@ func runPre(cfg *config, pre []sym, crash *crashSpec) (res preResult) {
 	switch {
 	case w.dead:
 		rec := &crashRecord{spec: *crash, dur: w.deadRef, committed: w.deadCommitted, pre: w.bcasts[0],
-			valueAt: append([]types.Height(nil), p.app.CallHeights...), net: w.net, trace: w.effects}
+			valueAt: append([]types.Height(nil), p.app.CallHeights...), known: p.app.knownList(), net: w.net, trace: w.effects}
 		if crash.When == crashBefore {
 			// the effect that was about to happen is named by the caller (it is not in the trace)
 		} else {
@@ -483,7 +487,7 @@ func sameEffects(a, b []effect) bool {
 // loggedBeforeVisible: everything the killed process had broadcast for a height that is not yet completely
 // committed must be derivable from the durable log by the same Application incarnation.
 func (x *explorer) loggedBeforeVisible(pre []sym, rec *crashRecord) {
-	rr := replayRef(x.cfg, rec.committed, 0, rec.entries, false)
+	rr := replayRef(x.cfg, rec.committed, 0, rec.entries, false, rec.known)
 	have := map[bcast]bool{}
 	for _, b := range rr.bcasts {
 		have[b] = true
@@ -554,7 +558,7 @@ func (x *explorer) replayOracles(pre []sym, rec *crashRecord, pr *postResult) {
 		x.violate("recovered-driver-never-starts-listening", x.detail(pre, rec, nil, false, map[string]any{"error": fmt.Sprint(p.runErr)}))
 		return
 	}
-	rr := replayRef(x.cfg, rec.committed, 1, rec.entries, true)
+	rr := replayRef(x.cfg, rec.committed, 1, rec.entries, true, nil)
 	if strings.Join(rr.fed, ",") != strings.Join(p.replayed, ",") {
 		x.violate("replayed-inputs-differ-from-durable-ones", x.detail(pre, rec, nil, false, map[string]any{"replayed": p.replayed, "durable_inputs": rr.fed}))
 	} else if rr.dump != p.dumpAfterRplay {
@@ -567,7 +571,7 @@ func (x *explorer) replayOracles(pre []sym, rec *crashRecord, pr *postResult) {
 			"reference_machine_height": uint64(rr.height), "commits_completed_during_replay": fmt.Sprint(p.replayCommits)}))
 	}
 	// the same consensus state the killed process had after processing exactly these inputs
-	r0 := replayRef(x.cfg, rec.committed, 0, rec.entries, true)
+	r0 := replayRef(x.cfg, rec.committed, 0, rec.entries, true, rec.known)
 	if r0.core != p.coreAfterRplay {
 		own := false
 		for h := rec.committed + 1; h <= p.firstStart; h++ {
